@@ -750,12 +750,27 @@ def shrink(case):
 def extra_obligations(tier):
     """BaseSubpaths.search is translated to Gallina from the source in BAIZE_REPO as it is now, and coqc re-checks
     C09/Translated.v (translated loop = C09.Model.search, for every route list and path) against the fresh definition;
-    the PyStr functions the translation is made of are compared with the interpreter's own str methods."""
+    the PyStr functions the translation is made of are compared with the interpreter's own str methods.
+    In addition (tools/py2coq_c09.py, C09/TranslatedCall.v): Subpaths.__call__ and Hosts.__call__ of baize/wsgi/routing.py
+    and baize/asgi/routing.py are translated the same way (environ / scope: an association list; self.search: an argument)
+    and coqc re-checks that what `response` is and the environ / scope it is called with are the model's dispatch /
+    hosts_wsgi / hosts_asgi on the request the dict holds, for every table, dict and fullmatch oracle, and that no other key
+    changes; C09/PyLib.v is compared with the interpreter's dict.  A source the translator refuses is not applicable (None)."""
     import importlib.util
     spec = importlib.util.spec_from_file_location("py2coq", os.path.join(core.VERIF, "tools", "py2coq.py"))
     py2coq = importlib.util.module_from_spec(spec)
     spec.loader.exec_module(py2coq)
-    return py2coq.obligations(PID, core.REPO, core.VERIF)
+    spec = importlib.util.spec_from_file_location("py2coq_c09", os.path.join(core.VERIF, "tools", "py2coq_c09.py"))
+    calls = importlib.util.module_from_spec(spec)
+    spec.loader.exec_module(calls)
+    # the four __call__ bodies around the search loops (C09/TranslatedCall.v; self.search is an argument of the generated
+    # functions, instantiated by the theorems with the model's search / hosts_search over an arbitrary fullmatch oracle), and
+    # C09/PyLib.v against this interpreter's dict; side by side with the tie of BaseSubpaths.search
+    from concurrent.futures import ThreadPoolExecutor
+    with ThreadPoolExecutor(2) as ex:
+        a = ex.submit(py2coq.obligations, PID, core.REPO, core.VERIF)
+        b = ex.submit(calls.obligations, core.REPO, core.VERIF)
+        return list(a.result()) + list(b.result())
 
 
 if __name__ == "__main__":
